@@ -13,11 +13,15 @@
      "dev:<Name>"     the observation is not what the property demands but is EXACTLY what the
                       named deviation of Adapter (the pinned library's known behaviour) predicts;
      "<call>:<who>:<clause>"  anything else, named after the first clause of the property that
-                      fails (count, sev, dest, format, msg, time, rec-attrs, given-attrs, ...;
+                      fails (count, sev, dest, format, msg, time:<kind of record time>, rec-attrs, given-attrs, ...;
                       "rec-attrs:dupkey" / "given-attrs:dupkey" when every missing attribute
                       shares its key with another one of its group - see Adapter, EQUAL KEYS;
                       "...-attrs:valuer", ":group-valuer", ":valuer-chain", ":valuer-in-valuer" when
                       every missing attribute has LogValuers on its path - see AttrClause).
+     "nested:<relation of h2 to h>:<carrier>:<outer|inner>:<clause>"  a nested pair (Adapter, NESTED RECORDS);
+     "nested:<relation>:<carrier>:hang", "hang:<call>"   the call did not return: the harness's watchdog
+                      wrote the line (field hang) after the process had made no progress for 30 s (next to
+                      no CPU time used) or after 15 minutes, and ended the process.
    PROCESSES.  The registry is process-wide and cannot be undone: the line "Proc" starts a new
    process (factory tables), "Reset" a new behaviour in the same process (the registry stays).
    Behaviours that register levels are executed in a process of their own.
@@ -27,8 +31,9 @@
      w      writer that received it (1/2 = the logger's normal/error writer, -1/-2 = the
             package default writers)
      fmt    "json" | "logfmt" | "color" (by shape)        sev   severity (0..11, -1 unknown)
-     msg    message bytes (colored mode: first line only)  t     time id (0 = inside the call
-            window, -1 = unknown, else the id of a catalogue instant)
+     msg    message bytes (colored mode: first line only)
+     t      the printed time: [now (inside the call window), ok (it could be read), d, s, n (the instant:
+            days since 0001-01-01, second of the day, nanosecond - in UTC)]
      leaves attributes found: [k key ("" = lost by the encoder), p enclosing groups known from
             nesting or a dotted key, m group names printed before it (encoders that print a bare
             group marker), kind, v catalogue value denoted (-1 unknown)]                        *)
@@ -78,13 +83,18 @@ AttrClause(name, part, all, Os) ==
 
 MsgOK(m, o) == IF o.fmt = "color" THEN o.msg = FirstLine(m) ELSE o.msg = m
 
+\* "the record's own time": t = the time id the model says is emitted (0 = stamped during the call),
+\* ot = the printed time as read back by the harness
+TimeOK(t, ot) == IF t = 0 THEN ot.now
+                 ELSE ot.ok /\ ~ot.now /\ [d |-> ot.d, s |-> ot.s, n |-> ot.n] = Instant(RecTimes[t])
+
 \* first failing clause of one record against the canonical record c; strictTime = FALSE for a
 \* fresh detached logger (its time layout is not the one the harness configured)
 RecClause(s, c, o, strictTime) ==
     IF o.w # WriterOf(s, c.dest, o.sev) THEN "dest"
     ELSE IF o.fmt # c.fmt THEN "format"
     ELSE IF ~MsgOK(c.msg, o) THEN "msg"
-    ELSE IF strictTime /\ o.t # c.t THEN "time"
+    ELSE IF strictTime /\ ~TimeOK(c.t, o.t) THEN "time:" \o TimeKind(c.t)
     ELSE IF AttrClause("rec-attrs", c.rec, AllLeaves(c), o.leaves) # "ok" THEN AttrClause("rec-attrs", c.rec, AllLeaves(c), o.leaves)
     ELSE AttrClause("given-attrs", c.given, AllLeaves(c), o.leaves)
 
@@ -115,6 +125,39 @@ HandleVerdict(s, e) ==
     IN IF c = "ok" THEN "ok"
        ELSE IF e.h > 1 /\ HandleClause(s, FreshHandler, e, FALSE) = "ok" THEN "dev:DerivedFresh"
        ELSE "handle:" \o Who(e.h) \o ":" \o c
+
+\* e: [h, h2, v, sh, via, t, mi, car, k, cv, q, en, en2, calls, recs]: outer record through h, its carrier logs
+\* the inner record q through h2 (0 = another handler on the same logger) each time it is asked (calls);
+\* recs = everything that reached a writer, in order.  The two are told apart by their messages.
+\* h2 = 0: the harness made another handler for the same logger (NewSlogHandler once more, same options) and
+\* logs what the logger's getters say afterwards: nothing may have changed (Adapter!SecondAdapterSame)
+SecondAdapterOK(s, e) == e.h2 # 0 \/ (e.lvl = s.lg.level /\ e.fmtobs = s.lg.fmt /\ e.caller = s.caller /\ e.dbg = s.dbg)
+
+NestedClause(s, e) ==
+    LET hsO == s.hs[e.h].s
+        hsI == TargetOf(s, e.h2)
+        mO == HMsgs[e.mi]
+        mI == HMsgs[e.q.mi]
+        XO == {x \in 1..Len(e.recs) : MsgOK(mO, e.recs[x])}
+        XI == (1..Len(e.recs)) \ XO
+        OuterC(o) == IF o.sev \notin MapLevel(s, e.v) THEN "sev"
+                     ELSE RecClause(s, CanonL(hsO, o.sev, NestLeaves(e), e.t, mO), o, TRUE)
+        InnerC(o) == IF ~MsgOK(mI, o) THEN "msg"
+                     ELSE IF o.sev \notin MapLevel(s, e.q.v) THEN "sev"
+                     ELSE RecClause(s, Canon(hsI, o.sev, e.q.sh, e.q.t, mI), o, TRUE)
+        badI == {y \in XI : InnerC(e.recs[y]) # "ok"}
+    IN IF ~SecondAdapterOK(s, e) THEN "second-adapter-changed-the-logger"
+       ELSE IF e.en \notin EnabledSet(s, hsO, e.v) THEN "outer:enabled"
+       ELSE IF e.en2 \notin EnabledSet(s, hsI, e.q.v) THEN "inner:enabled"
+       ELSE IF Cardinality(XO) # (IF e.en THEN 1 ELSE 0) THEN "outer:count"
+       ELSE IF Cardinality(XI) # (IF e.en2 THEN e.calls ELSE 0) THEN "inner:count"
+       ELSE IF \E x \in XO : OuterC(e.recs[x]) # "ok" THEN "outer:" \o OuterC(e.recs[CHOOSE x \in XO : TRUE])
+       ELSE IF badI # {} THEN "inner:" \o InnerC(e.recs[Min(badI)])
+       ELSE "ok"
+
+NestedVerdict(s, e) ==
+    LET c == IF "hang" \in DOMAIN e THEN "hang" ELSE NestedClause(s, e)
+    IN IF c = "ok" THEN "ok" ELSE "nested:" \o Rel(s, e.h, e.h2) \o ":" \o e.car \o ":" \o c
 
 \* Entry.Log(v): some severity of sevs is chosen; the record appears iff the logger admits it
 EntryLogClause(s, e, sevs) ==
@@ -168,7 +211,9 @@ NewHandlerVerdict(s2, e) ==
 Ideal(S) == CHOOSE x \in S : TRUE
 
 Step(s, e) ==   \* successor state (ideal branch) and verdict of one line
-    CASE e.op = "Proc" -> [s |-> InitState, v |-> "ok"]
+    CASE e.op = "Nested" -> [s |-> s, v |-> NestedVerdict(s, e)]
+      [] "hang" \in DOMAIN e -> [s |-> s, v |-> "hang:" \o e.op]      \* a call that did not return (the log ends here)
+      [] e.op = "Proc" -> [s |-> InitState, v |-> "ok"]
       [] e.op = "Reset" -> [s |-> ResetState(s), v |-> "ok"]
       [] e.op = "Register" -> [s |-> RegisterStep(s, [val |-> e.val, treat |-> e.treat, err |-> e.err]), v |-> "ok"]
       [] e.op = "NewHandler" -> LET s2 == NewHandlerStep(s, e.L, e.oi) IN [s |-> s2, v |-> NewHandlerVerdict(s2, e)]
@@ -201,6 +246,7 @@ Done == i <= Len(TLog) \/ PrintT("@@end " \o ToJson([lines |-> Len(TLog), bad |-
 TKeepsConfig == KeepsConfig
 TAddsGiven == AddsGiven
 TRecordWins == RecordWins
+TSecondAdapterSame == SecondAdapterSame
 TStdIndependent == StdIndependent
 TRegistryLocal == RegistryLocal
 TTypeOK == TypeOK
